@@ -3,6 +3,7 @@
 
 mod bench;
 mod c06;
+mod c12c;
 mod c15;
 mod c19;
 mod engine;
@@ -30,6 +31,7 @@ fn real_main() {
         "C06" => c06::run(tier),
         "C15" => c15::run(tier),
         "C19" => c19::run(tier),
+        "C12" => c12c::run(tier),
         other => mcx::machinery(format!("unknown property {other}")),
     }
 }
